@@ -103,7 +103,9 @@ class CliWorld:
     def _gen_deploying(self, ch):
         """deploy rulebook over the patching rulebook's rows: sibling rules have disjoint languages (unique heads)"""
         lines = []
-        self.alt_apply = ch.draw(3, "dep-alt-world") == 0
+        # (a forced intermediate 'commit' row between commands of two apply logics would make the expected grouping
+        #  depend on the collapsed-commit finding; the two features are exercised in separate worlds)
+        self.alt_apply = ch.draw(3, "dep-alt-world") == 0 and "force_commit" not in self.allow
 
         def emit(rules, ind, nested_ok):
             for r in rules:
